@@ -64,7 +64,13 @@ CHECKS = {
  "C10": ("proof", "Theorems in coq/Props/C10.v: C10_never_value -- for EVERY parser, a live item none of the parser's own consumers "
          "accepts (a help/version flag whose names no item uses) makes run_subparser/run_inner unable to yield a value (the "
          "help lookups are not consumers: OkReach shows a successful evaluation never keeps what they took); C10_help_found -- "
-         "when the help flag is live in the scope the failed parser left behind the outcome is this level's help. The "
+         "when the help flag is live in the scope the failed parser left behind the outcome is this level's help. "
+         "C10_help_wins_without_subcommands / C10_help_wins_level / C10_version_wins_level (HelpWins.v): the FULL statement for "
+         "every definition (and every command level) without subcommands and adjacent groups -- all other combinators, "
+         "arbitrarily nested: the help flag as an item of its own gives this level's help WHATEVER else is missing, "
+         "duplicated or malformed (only subcommands produce a ready-made failure; the parser is total; nobody can consume the "
+         "help item and the scope is kept, so the lookup finds it; a successful parse has a leftover; `remaining` is exact and "
+         "not zero); likewise the version flag when a version is configured and no help flag is on the line. With subcommands the "
          "unrestricted 'whatever else fails' statement is proved FALSE (C10_refuted_seq) and recorded as two known-finding "
          "classes; valid lines are checked strictly by the oracle (request at every piece boundary, innermost level marker)." + DIFF,
          "4/C10", "Rocq proof (never-a-value from the ledger, help lookup lemma, refutation witness) over a hand-written model + differential correspondence + help-position oracle"),
